@@ -57,9 +57,10 @@ def withhold_unrecognised(check: Check, pid: str) -> None:
     def current_names(node):
         return {n.id for n in ast.walk(node) if isinstance(n, ast.Name)} | {a.arg for a in ast.walk(node) if isinstance(a, ast.arg)}
 
+    known_keys = {(e["rule"], e["construct"]) for e in getattr(check, "known", []) if e.get("status") == "known"}
     for ob in check.obligations:
-        if ob.verdict != "violated":
-            continue
+        if ob.verdict != "violated" or (ob.rule, ob.construct) in known_keys:
+            continue  # a listed known finding is expected as it is: never demoted to an analysis error
         relevant = slice_idents(list(ob.src))  # None: unknown → every keyed name counts
         cands = []  # (key in table, node)
         if ":" in ob.where:
